@@ -65,6 +65,9 @@ type Server struct {
 	// Stall: a broken exchange is realised by a server that reads the request and then
 	// never answers (the client's context deadline ends it) instead of closing.
 	Stall bool
+	// OnStall, if set, is called once the stalled server has read the request (the
+	// harness uses it to cancel the client's context at exactly that point).
+	OnStall func()
 	// Placement: where established sessions live and what the server is configured
 	// with. "" / "own": the server has its own SessionCache and the harness moves
 	// each new session into it; "fallback": the server has its own (empty)
@@ -221,6 +224,13 @@ func (s *Server) Serve(conn Conn, app func(st *stream.Stream, neg *security.Secu
 		_, _ = st.ReceiveCompleteMessage(ctx)
 		if s.Stall {
 			// never answer: wait until the client gives up and closes
+			s.mu.Lock()
+			f := s.OnStall
+			s.OnStall = nil
+			s.mu.Unlock()
+			if f != nil {
+				f()
+			}
 			_, _ = st.ReceiveCompleteMessage(ctx)
 		}
 		return log
@@ -296,8 +306,17 @@ func RealClient(cfg *security.SecurityConfig, serverAddr string, exchange bool, 
 // RealClientDeadline: with deadline > 0 the handshake runs under a context that
 // expires after it (the caller-side timeout of a stalled exchange).
 func RealClientDeadline(cfg *security.SecurityConfig, serverAddr string, exchange bool, deadline time.Duration, out *ClientResult) func(conn *wire.C06Conn) {
+	return RealClientCtx(nil, cfg, serverAddr, exchange, deadline, out)
+}
+
+// RealClientCtx: the handshake runs under parent (Background if nil), bounded by
+// deadline if > 0.
+func RealClientCtx(parent context.Context, cfg *security.SecurityConfig, serverAddr string, exchange bool, deadline time.Duration, out *ClientResult) func(conn *wire.C06Conn) {
 	return func(conn *wire.C06Conn) {
-		ctx := context.Background()
+		ctx := parent
+		if ctx == nil {
+			ctx = context.Background()
+		}
 		if deadline > 0 {
 			var cancel context.CancelFunc
 			ctx, cancel = context.WithTimeout(ctx, deadline)
